@@ -442,6 +442,13 @@ fn boundary(rng: &mut Rng, rem: usize) -> usize {
             _ => (1usize << 63) + small,
         };
     }
+    // widths of the integer types an implementation might keep an index or a count in
+    if rem > 100 && rng.chance(1, 12) {
+        let c = *rng.pick(&[126usize, 127, 128, 129, 254, 255, 256, 257, 32767, 32768, 65535, 65536]);
+        if c <= rem + 2 {
+            return c;
+        }
+    }
     match rng.below(10) {
         0 => 0,
         1 => 1,
@@ -470,6 +477,14 @@ fn small_boundary(rng: &mut Rng, rem: usize) -> usize {
 
 pub fn range_pair(rng: &mut Rng, n: usize) -> (usize, usize) {
     let r = |rng: &mut Rng| rng.below(n as u64) as usize;
+    // index distances at the widths of narrower integer types (large enums only)
+    if n > 130 && rng.chance(1, 8) {
+        let d = *rng.pick(&[126usize, 127, 128, 129, 254, 255, 256, 257, 32767, 32768, 65535]);
+        if d < n {
+            let i = rng.below((n - d) as u64) as usize;
+            return if rng.chance(4, 5) { (i, i + d) } else { (i + d, i) };
+        }
+    }
     match rng.below(8) {
         0 => (0, n - 1),
         1 => {
@@ -515,10 +530,11 @@ pub fn draw_profile(rng: &mut Rng, prop: Prop) -> Profile {
         15..=17 => 3,
         _ => 4,
     };
-    let steps = if rng.chance(1, 2) {
-        rng.range(1, 12)
-    } else {
-        rng.range(8, 64)
+    let steps = match rng.below(40) {
+        0..=19 => rng.range(1, 12),
+        20..=37 => rng.range(8, 64),
+        // now and then a long history
+        _ => rng.range(64, 200),
     } as usize;
     let mut w = [0u32; 8];
     for x in w.iter_mut() {
